@@ -11,6 +11,7 @@ import (
 	"fmt"
 	"os"
 	"runtime"
+	"strconv"
 	"strings"
 	"sync"
 	"sync/atomic"
@@ -357,18 +358,27 @@ var scripts = []scriptT{
 	{client: true, steps: []string{"run", "valid", "ready", "valid", "valid", "acc:idB", "wclosed", "closeS", "connerr", "deferred"}},
 	{client: true, steps: []string{"run", "valid", "ready", "valid", "valid", "acc:idB", "closeS", "connerr", "deferred", "closeU"}},
 	{client: true, steps: []string{"run", "valid", "ready", "valid", "valid", "acc:idB", "spine", "wclosed", "spine", "connerr"}},
+	// C04/C11: a local graceful close of a completed connection whose transport turns closed right
+	// before / right after the closed-query / after the announce was written
+	{client: true, steps: []string{"run", "valid", "ready", "valid", "valid", "acc:idB", "wf0:closeS", "deferred", "timeout"}},
+	{client: true, steps: []string{"run", "valid", "ready", "valid", "valid", "acc:idB", "wf1:closeS", "deferred", "timeout"}},
+	{client: true, steps: []string{"run", "valid", "ready", "valid", "valid", "acc:idB", "wf2:closeS", "deferred", "timeout"}},
+	{steps: []string{"run", "valid", "approve", "valid", "valid", "valid", "acc:idA", "wf1:closeS", "deferred", "timeout"}},
+	{steps: []string{"run", "valid", "approve", "valid", "valid", "valid", "acc:idA", "wf2:closeS", "deferred", "connerr"}},
+	// C06: large datagrams (80 KB, 3 x 30 KB) that arrive before the receiver's handshake is over
+	{steps: []string{"run", "valid", "bigdata:80000", "data", "approve", "valid", "valid", "valid", "acc:idA", "data"}},
+	{client: true, steps: []string{"run", "valid", "ready", "bigdata:30000", "bigdata:30000", "bigdata:30000", "data", "valid", "valid", "acc:idB", "data"}},
 	// C09: wrong / missing id while one is stored; unknown id reported once
 	{client: true, stored: "idA", steps: []string{"run", "valid", "ready", "valid", "valid", "acc:idB", "acc:idA"}},
 	{stored: "idA", steps: []string{"run", "valid", "approve", "valid", "valid", "valid", "msg:" + string(accMethods("null")), "acc:idA"}},
 	{steps: []string{"run", "valid", "approve", "valid", "valid", "valid", "acc:", "data", "spine"}},
 	// C14/C04: a pending server's wait is ended by a hello with every class of waiting value
-	// (>= 30 s re-arms, 1..30 s stops, < 1 s aborts, none aborts), then the old timer's expiry is tried
+	// (> 30 s re-arms, 1..30 s stops, < 1 s aborts, none aborts; exactly 30 s arms a 0 ns timer that fires by itself - left to the random stream, which waits for it), then the old timer's expiry is tried
 	{steps: []string{"run", "valid", "ready", "msg:" + string(helloMsg(nil, "pending", "29999", "")), "timeout", "approve", "timeout"}},
-	{steps: []string{"run", "valid", "ready", "msg:" + string(helloMsg(nil, "pending", "1000", "")), "timeout", "deferred"}},
+	{steps: []string{"run", "valid", "ready", "msg:" + string(helloMsg(nil, "pending", "12000", "")), "timeout", "deferred"}},
 	{steps: []string{"run", "valid", "msg:" + string(helloMsg(nil, "pending", "15000", "")), "timeout", "approve"}},
 	{steps: []string{"run", "valid", "ready", "msg:" + string(helloMsg(nil, "ready", "15000", "")), "timeout", "approve", "timeout"}},
 	{steps: []string{"run", "valid", "ready", "msg:" + string(helloMsg(nil, "pending", "999", "")), "timeout", "deferred"}},
-	{steps: []string{"run", "valid", "ready", "msg:" + string(helloMsg(nil, "pending", "30000", "")), "timeout", "approve", "timeout"}},
 	// C01/C06: data before completion, pending without approval, cancel
 	{steps: []string{"run", "valid", "data", "data", "ready", "timeout", "data", "abort", "data", "deferred"}},
 	{steps: []string{"run", "valid", "data", "approve", "data", "valid", "valid", "valid", "data", "acc:idA", "data"}},
@@ -420,6 +430,10 @@ func scriptEvent(r *vh.Rng, step string, st int, storedID string, pay *int) []*e
 	case step == "data":
 		*pay++
 		return recv(dataMsg(*pay))
+	case strings.HasPrefix(step, "bigdata:"):
+		*pay++
+		n, _ := strconv.Atoi(step[8:])
+		return recv(dat(fmt.Sprintf(`{"data":[{"header":[{"protocolId":"ee1.0"}]},{"payload":{"datagram":[{"n":%d},{"pad":"%s"}]}}]}`, *pay, strings.Repeat("x", n))))
 	case step == "announce":
 		return recv(closeMsg(r, "announce"))
 	case step == "confirm":
